@@ -32,6 +32,9 @@ pub struct DfCfg {
     /// junk bytes in front of the datafile inside that temp file (Reader::new on a positioned File)
     #[serde(default)]
     pub file_prefix: u16,
+    /// some data blocks are megabytes of highly compressible bytes
+    #[serde(default)]
+    pub huge_data: bool,
 }
 
 #[derive(Clone, Debug, Serialize, Deserialize, PartialEq)]
@@ -136,15 +139,20 @@ fn model(cfg: &DfCfg) -> Model {
             let n = if per_type[k] == 0 && r.chance(3, 4) { 1 } else { per_type[k] };
             for j in 0..n {
                 let id = if r.chance(1, 2) { j as u16 } else { r.below(0x10000) as u16 };
-                let len = *r.pick(&[0usize, 0, 1, 2, 3, 5, 16, 40]);
+                // through a real file the item section must outgrow any plausible I/O buffer (8 KiB, 64 KiB, ...)
+                let len = if cfg.via_file { *r.pick(&[0usize, 1, 2, 16, 40, 500, 500, 4000, 20000]) } else { *r.pick(&[0usize, 0, 1, 2, 3, 5, 16, 40]) };
                 items.push(MItem { type_id: t, id, data: (0..len).map(|_| r.i32_edge()).collect() });
             }
         }
     }
     let mut data = Vec::new();
     for _ in 0..cfg.n_data {
-        let len = *r.pick(&[0usize, 1, 2, 3, 4, 7, 100, 1000, 5000, 70000]);
-        let d = match r.below(3) {
+        let mut len = *r.pick(&[0usize, 1, 2, 3, 4, 7, 100, 1000, 5000, 70000]);
+        if cfg.huge_data && r.chance(1, 2) {
+            // megabytes of highly compressible data (an empty tile layer of a big map)
+            len = *r.pick(&[1usize << 20, (3 << 20) + 12345, 8 << 20]);
+        }
+        let d = match if len >= (1 << 20) { r.below(2) * 2 } else { r.below(3) } {
             0 => vec![0u8; len],
             1 => r.bytes(len),
             _ => (0..len).map(|i| (i / 7) as u8).collect(),
@@ -181,7 +189,11 @@ fn serialize(cfg: &DfCfg, m: &Model) -> Layout {
         data_offsets.push(data_raw.len() as i32);
         if v4 {
             uncomp.push(d.len() as i32);
-            let z = if cfg.compress == 0 { zlib_stored(d) } else { libtw2_datafile_zlib(d) };
+            let z = match cfg.compress {
+                0 => zlib_stored(d),
+                1 => libtw2_datafile_zlib(d),
+                _ => libz_compress(d),
+            };
             data_raw.extend_from_slice(&z);
         } else {
             data_raw.extend_from_slice(d);
@@ -234,6 +246,14 @@ fn serialize(cfg: &DfCfg, m: &Model) -> Layout {
     out.extend_from_slice(&data_raw);
     regions[6] = (s, out.len());
     Layout { bytes: out, regions, data_start: s, size_data: data_raw.len() }
+}
+
+/// Really compressed with libz (what map editors write): the only encoding with a compression ratio.
+fn libz_compress(d: &[u8]) -> Vec<u8> {
+    let mut out = vec![0u8; d.len() + d.len() / 1000 + 64];
+    let n = libtw2_zlib_minimal::compress(&mut out, d).expect("TW2SIM libz compress");
+    out.truncate(n);
+    out
 }
 
 fn libtw2_datafile_zlib(d: &[u8]) -> Vec<u8> {
@@ -616,13 +636,14 @@ impl Engine for DfEngine {
         let cfg = DfCfg {
             seed: c.next_u64(),
             version: if c.chance(1, 2) { 3 } else { 4 },
-            compress: c.below(2) as u8,
+            compress: c.below(3) as u8,
             n_types: c.range(0, 5) as u8,
             n_items: c.range(0, 12) as u8,
             n_data: *c.pick(&[0u8, 1, 2, 3, 6]),
             map: c.chance(1, 5),
             via_file: c.chance(1, 10),
             file_prefix: if c.chance(1, 3) { *c.pick(&[1u16, 4, 100, 8191, 8192, 9000]) } else { 0 },
+            huge_data: c.chance(1, 500),
         };
         let mut ops = Vec::new();
         let n_faults = match c.below(6) {
